@@ -361,8 +361,28 @@ def _local_def_as_lambda(st: ast.stmt) -> Optional[List[ast.stmt]]:
     body = list(st.body)
     if body and isinstance(body[0], ast.Expr) and isinstance(body[0].value, ast.Constant) and isinstance(body[0].value.value, str):
         body = body[1:]
-    if len(body) != 1 or not isinstance(body[0], ast.Return) or body[0].value is None:
+    def as_expr(stmts: List[ast.stmt]) -> Optional[ast.AST]:
+        """`if c: return A` ... `return Z` (also if / elif / else with returns) as the conditional expression it computes"""
+        if not stmts:
+            return None
+        st0 = stmts[0]
+        if isinstance(st0, ast.Return):
+            return copy.deepcopy(st0.value) if st0.value is not None else ast.Constant(None)
+        if isinstance(st0, ast.If):
+            a = as_expr(list(st0.body))
+            b = as_expr(list(st0.orelse) if st0.orelse else stmts[1:])
+            if a is None or b is None:
+                return None
+            if st0.orelse and len(stmts) > 1:
+                return None
+            return ast.IfExp(copy.deepcopy(st0.test), a, b)
         return None
+
+    if len(body) != 1 or not isinstance(body[0], ast.Return) or body[0].value is None:
+        ex = as_expr(body) if body and isinstance(body[0], ast.If) and isinstance(st, ast.FunctionDef) else None
+        if ex is None:
+            return None
+        body = [ast.copy_location(ast.Return(ex), st)]
     if any(isinstance(n, (ast.Yield, ast.YieldFrom, ast.Await, ast.NamedExpr)) for n in ast.walk(body[0].value)):
         return None
     a = st.args
